@@ -10,7 +10,7 @@ Import ListNotations.
 From Traph Require Import Bytes Consts Layout Helpers Rules Tst TstDefs Traph Traphw TraceDefs Codec CodecFacts
   TstFacts Store StoreFacts GenStorage GenNode GenNodeFacts GenLinks GenTrie GenTrieFacts GenTrieW GenTrieWDefs
   GenTrieD GenTrieDDefs GenTraph.
-From Traph Require GenHelpers2 GenHelpers2Facts QueryCore2 PropsEx.
+From Traph Require GenHelpers2 GenHelpers2Facts QueryCore2 IdFacts PropsEx.
 Open Scope N_scope.
 
 Arguments N.shiftr : simpl never.
@@ -124,4 +124,482 @@ Proof.
   - injection H as <- _. congruence.
   - discriminate H.
   - injection H as <- _. congruence.
+Qed.
+
+(* ====================================================================================== *)
+(* 2. the model's list of ancestors, one stem at a time from the far end                   *)
+(* ====================================================================================== *)
+Lemma ancestors_single : forall x acc t, ancestors [x] acc t = acc.
+Proof. intros x acc t. rewrite QueryCore2.ancestors_sib. destruct (sib_find x t) as [[d c]|]; reflexivity. Qed.
+
+(* the nearest ancestor of the node at q ++ [x] is the node at q, followed by the ancestors of that one *)
+Lemma ancestors_snoc : forall q x t acc d dq, q <> [] ->
+  find (q ++ [x]) t = Some d -> find q t = Some dq ->
+  ancestors (q ++ [x]) acc t = dq :: ancestors q acc t.
+Proof.
+  induction q as [|y q' IH]; intros x t acc d dq Hq Hf Hfq; [congruence|].
+  cbn [app] in *. rewrite QueryCore2.ancestors_sib. rewrite (QueryCore2.ancestors_sib y q').
+  rewrite find_sib in Hf, Hfq.
+  destruct (sib_find y t) as [[d1 c]|]; [|discriminate].
+  destruct q' as [|z q''].
+  - cbn [app] in *. injection Hfq as ->. apply ancestors_single.
+  - change ((z :: q'') ++ [x]) with (z :: (q'' ++ [x])) in *. cbv iota.
+    change (z :: (q'' ++ [x])) with ((z :: q'') ++ [x]) in *.
+    apply (IH x c (d1 :: acc) d dq); [discriminate|exact Hf|exact Hfq].
+Qed.
+
+(* ====================================================================================== *)
+(* 3. the Python set of webentity ids and the model's deduped                             *)
+(* ====================================================================================== *)
+Definition dd (acc l : list N) : list N :=
+  fold_left (fun acc x => if memN x acc then acc else acc ++ [x]) l acc.
+Lemma deduped_dd : forall l, deduped l = dd [] l.
+Proof. reflexivity. Qed.
+Lemma dd_app : forall acc l1 l2, dd acc (l1 ++ l2) = dd (dd acc l1) l2.
+Proof. intros acc l1 l2. unfold dd. apply fold_left_app. Qed.
+
+Definition keepw (w x : N) : bool := negb (x =? 0) && negb (x =? w).
+
+(* the body of the loop `for node ...: weid2 = node.webentity(); if weid2 and weid2 > 0 and weid2 != weid: weids.add(weid2)` *)
+Definition addw (w : N) (weids : list (option N)) (n : py_node) : list (option N) :=
+  let v_weid2 := py_node_webentity n in
+  if (match v_weid2 with None => false | Some v => negb (v =? 0) && (0 <? v) && negb (v =? w) end)
+  then py_set_add v_weid2 weids else weids.
+
+Lemma mem_some : forall x acc, existsb (oN_eqb (Some x)) (map Some acc) = memN x acc.
+Proof.
+  intros x acc. unfold memN. induction acc as [|y acc IH]; [reflexivity|].
+  cbn [map existsb oN_eqb]. rewrite IH. reflexivity.
+Qed.
+
+Lemma get_we : forall b, py_get_num pos_we (tblock_vals b) = b_we b.
+Proof. intros [st fl w l r c p o i]. reflexivity. Qed.
+
+Lemma addw_rep : forall w d l c r n acc, node_at (Nd d l c r) n ->
+  addw w (map Some acc) n = map Some (dd acc (filter (keepw w) [we d])).
+Proof.
+  intros w d l c r n acc (_ & _ & Hd & _). unfold addw, py_node_webentity, keepw.
+  rewrite Hd, get_we. cbn [main_block b_we filter].
+  destruct (N.eqb_spec (we d) 0) as [Ez|Ez]; cbn [negb andb]; [reflexivity|].
+  assert (Hpos : (0 <? we d) = true) by (apply N.ltb_lt; lia).
+  destruct (N.eqb_spec (we d) 0) as [Ez'|_]; [contradiction|]. rewrite Hpos. cbn [negb andb].
+  destruct (we d =? w); cbn [negb]; [reflexivity|].
+  unfold py_set_add, dd. cbn [fold_left]. rewrite mem_some.
+  destruct (memN (we d) acc); [reflexivity|]. rewrite map_app. reflexivity.
+Qed.
+
+Lemma fold_addw : forall w (P : py_node -> nd -> Prop),
+  (forall n d, P n d -> exists l c r, node_at (Nd d l c r) n) ->
+  forall items ds acc, Forall2 P items ds ->
+  fold_left (addw w) items (map Some acc) = map Some (dd acc (filter (keepw w) (map we ds))).
+Proof.
+  intros w P HP items ds acc H. revert acc. induction H as [|n d items ds Hnd _ IH]; intro acc; [reflexivity|].
+  destruct (HP n d Hnd) as (l & c & r & Hn).
+  cbn [fold_left map]. rewrite (addw_rep w d l c r n acc Hn), IH.
+  assert (E : filter (keepw w) (we d :: map we ds) = filter (keepw w) [we d] ++ filter (keepw w) (map we ds))
+    by (cbn [filter]; destruct (keepw w (we d)); reflexivity).
+  rewrite E, dd_app. reflexivity.
+Qed.
+
+Lemma fold_left_ext : forall (A B : Type) (f g : A -> B -> A), (forall a x, f a x = g a x) ->
+  forall l a, fold_left f l a = fold_left g l a.
+Proof. intros A B f g H l. induction l as [|x l IH]; intro a; [reflexivity|]. cbn [fold_left]. rewrite H. apply IH. Qed.
+
+Lemma fold_left_map : forall (A B C : Type) (f : A -> C -> A) (g : B -> C) l a,
+  fold_left f (map g l) a = fold_left (fun a x => f a (g x)) l a.
+Proof. intros A B C f g l. induction l as [|x l IH]; intro a; [reflexivity|]. cbn [map fold_left]. apply IH. Qed.
+
+Lemma Forall2_map2 : forall (A B C D : Type) (R0 : A -> B -> Prop) (R : C -> D -> Prop) (f : A -> C) (g : B -> D) l1 l2,
+  (forall a b, R0 a b -> R (f a) (g b)) -> Forall2 R0 l1 l2 -> Forall2 R (map f l1) (map g l2).
+Proof. intros A B C D R0 R f g l1 l2 HR H. induction H; cbn [map]; constructor; [apply HR|]; assumption. Qed.
+
+(* ====================================================================================== *)
+(* 4. the generated requests, re-stated                                                   *)
+(* ====================================================================================== *)
+Definition WSt : Type := option (py_pm * list (option N)).
+
+Definition Fp (w : N) (st : WSt) (v_prefix : bytes) : WSt :=
+ match st with
+ | None => None
+ | Some (sg, v_weids) =>
+ (match py_trie_lru_node sg v_prefix with
+ | None => None
+ | Some (sg, v_starting_node) => (match v_starting_node with
+ | None => None
+ | Some v_starting_node => (match py_trie_node_parents_iter sg v_starting_node with
+ | None => None
+ | Some (v__items, sg) => Some (sg, fold_left (addw w) v__items v_weids) end) end) end) end.
+
+Lemma parents_req_eq : forall sg w ps,
+  py_traph_get_webentity_parent_webentities sg w ps =
+  match fold_left (Fp w) ps (Some (sg, [])) with None => None | Some (sg, ws) => Some (sg, ws) end.
+Proof. reflexivity. Qed.
+
+Definition Fc (w : N) (st : WSt) (v_prefix : bytes) : WSt :=
+ match st with
+ | None => None
+ | Some (sg, v_weids) =>
+ (match py_trie_lru_node sg v_prefix with
+ | None => None
+ | Some (sg, v_starting_node) => (match v_starting_node with
+ | None => None
+ | Some v_starting_node => (match py_trie_dfs_iter sg (Some v_starting_node) v_prefix true with
+ | None => None
+ | Some (v__items, sg) =>
+     Some (sg, fold_left (fun (st : list (option N)) (v__it : (py_node * bytes)) =>
+                            let '(v_node, v__) := v__it in addw w st v_node) v__items v_weids) end) end) end) end.
+
+Lemma children_req_eq : forall sg w ps,
+  py_traph_get_webentity_child_webentities sg w ps =
+  match fold_left (Fc w) ps (Some (sg, [])) with None => None | Some (sg, ws) => Some (sg, ws) end.
+Proof. reflexivity. Qed.
+
+Lemma fold_Fp_none : forall w ps, fold_left (Fp w) ps None = None.
+Proof. intros w ps. induction ps as [|p ps IH]; [reflexivity|exact IH]. Qed.
+Lemma fold_Fc_none : forall w ps, fold_left (Fc w) ps None = None.
+Proof. intros w ps. induction ps as [|p ps IH]; [reflexivity|exact IH]. Qed.
+
+(* ====================================================================================== *)
+(* 5. on the trie file of a state satisfying Inv18                                        *)
+(* ====================================================================================== *)
+Section Hier.
+  (* the translated dfs_iter from a starting node (proved in GenTrieDDfs.v: py_trie_dfs_iter_at_spec) *)
+  Hypothesis dfs_at_spec : forall s, Inv18 s -> forall sg skip t n lru,
+    trep (files_of s) sg -> subt t (tr s) -> node_at t n ->
+    exists items sg', py_trie_dfs_iter sg (Some n) lru skip = Some (items, sg') /\
+      trep (files_of s) sg' /\ pm_array sg' = pm_array sg /\
+      Forall2 (item_rep s) items (dfs_at skip (lru_dirname lru) t).
+
+Section OnState.
+  Variable s : traph.
+  Hypothesis Hinv : Inv18 s.
+
+  (* a node object stands for a node of the tree: it is what reading that node's block yields *)
+  Definition anc_rep (n : py_node) (d : nd) : Prop :=
+    exists l c r, subt (Nd d l c r) (tr s) /\ node_at (Nd d l c r) n.
+
+  (* the loop over the parent registers from a node object of the node at path p: the node objects of its proper ancestors,
+     nearest first *)
+  Lemma ploop_anc : forall p d l c r n sg fuel out,
+    find p (tr s) = Some d -> subt (Nd d l c r) (tr s) -> node_at (Nd d l c r) n -> trep (files_of s) sg ->
+    (length p <= fuel)%nat ->
+    exists sg' nl items, ploop fuel (sg, n, out) = Some (sg', nl, out ++ items) /\ trep (files_of s) sg' /\
+      pm_array sg' = pm_array sg /\ Forall2 anc_rep items (ancestors p [] (tr s)).
+  Proof.
+    intros p. remember (length p) as len eqn:Hlen. revert p Hlen.
+    induction len as [|len IH]; intros p Hlen d l c r n sg fuel out Hf Hsub Hn Hrep Hfuel.
+    - destruct p; [rewrite find_nil in Hf; discriminate|discriminate Hlen].
+    - destruct (exists_last (l := p)) as (q & x & ->); [intro E; subst p; discriminate Hlen|].
+      rewrite app_length in Hlen. cbn [length] in Hlen.
+      destruct fuel as [|k]; [lia|].
+      destruct (parent_reg s q x d l c r n Hf Hn) as [Hp _].
+      cbn [ploop]. unfold py_node_has_parent. rewrite Hp.
+      pose proof (I_pars _ Hinv q x d Hf) as HP.
+      destruct q as [|y q'].
+      + rewrite HP. change (0 =? 0) with true. cbn [negb].
+        exists sg, n, []. rewrite app_nil_r. split; [reflexivity|]. split; [exact Hrep|]. split; [reflexivity|].
+        cbn [app]. rewrite ancestors_single. constructor.
+      + destruct HP as (dp & Hdp & Epar).
+        destruct (find_subt _ _ _ Hdp) as (l' & c' & r' & _ & Hsub').
+        pose proof (root_addr_ge s Hinv dp l' c' r' Hsub') as Hge.
+        assert (Hnz : (par d =? 0) = false).
+        { apply N.eqb_neq. rewrite Epar. change py_first_data_block with 128 in Hge. lia. }
+        rewrite Hnz. cbn [negb]. unfold py_node_read_parent, py_node_parent. rewrite Hp, Epar.
+        destruct (N.ltb_spec (addr dp) py_first_data_block) as [Hlt|_]; [lia|].
+        pose proof (read_subt s Hinv dp l' c' r' n sg Hsub' Hrep) as HR. cbv zeta in HR.
+        pose proof (read_o_arr n sg (Some (addr dp))) as Ha.
+        destruct (py_node_read_o n sg (Some (addr dp))) as [n1 sg1]. cbn [fst snd] in HR, Ha. destruct HR as [Hn1 Hrep1].
+        destruct (IH (y :: q') ltac:(lia) dp l' c' r' n1 sg1 k (out ++ [n1]) Hdp Hsub' Hn1 Hrep1)
+          as (sg' & nl & items & E & Hrep' & Harr' & HF).
+        { cbn [length] in *. lia. }
+        exists sg', nl, (n1 :: items). rewrite E, <- app_assoc. split; [reflexivity|]. split; [exact Hrep'|].
+        split; [rewrite Harr'; exact Ha|].
+        rewrite (ancestors_snoc (y :: q') x (tr s) [] d dp ltac:(discriminate) Hf Hdp).
+        constructor; [|exact HF]. exists l', c', r'. split; assumption.
+  Qed.
+
+  (* LRUTrie.node_parents_iter(node) from the node object of the node at path p *)
+  Theorem py_trie_node_parents_iter_spec : forall p d l c r n sg,
+    find p (tr s) = Some d -> subt (Nd d l c r) (tr s) -> node_at (Nd d l c r) n -> trep (files_of s) sg ->
+    exists items sg', py_trie_node_parents_iter sg n = Some (items, sg') /\ trep (files_of s) sg' /\
+      pm_array sg' = pm_array sg /\ Forall2 anc_rep items (ancestors p [] (tr s)).
+  Proof.
+    intros p d l c r n sg Hf Hsub Hn Hrep.
+    destruct (exists_last (l := p)) as (q & x & ->); [intro E; subst p; rewrite find_nil in Hf; discriminate|].
+    destruct (parent_reg s q x d l c r n Hf Hn) as [Hp Hs].
+    rewrite parents_iter_eq. unfold py_node_has_parent. rewrite Hp.
+    pose proof (I_pars _ Hinv q x d Hf) as HP.
+    destruct q as [|y q'].
+    - rewrite HP. change (0 =? 0) with true. cbn [negb app]. rewrite ancestors_single.
+      exists [], sg. split; [reflexivity|]. split; [exact Hrep|]. split; [reflexivity|constructor].
+    - destruct HP as (dp & Hdp & Epar).
+      destruct (find_subt _ _ _ Hdp) as (l' & c' & r' & _ & Hsub').
+      pose proof (root_addr_ge s Hinv dp l' c' r' Hsub') as Hge.
+      assert (Hnz : (par d =? 0) = false).
+      { apply N.eqb_neq. rewrite Epar. change py_first_data_block with 128 in Hge. lia. }
+      rewrite Hnz. cbn [negb]. unfold py_node_parent_node, py_node_parent. rewrite Hp, Epar, init_read.
+      set (nd0 := nd_set_tail [] (nd_set_exists false (nd_set_block None py_node_new))).
+      pose proof (read_subt s Hinv dp l' c' r' nd0 sg Hsub' Hrep) as HR. cbv zeta in HR.
+      pose proof (read_o_arr nd0 sg (Some (addr dp))) as Ha.
+      destruct (py_node_read_o nd0 sg (Some (addr dp))) as [n1 sg1]. cbn [fst snd] in HR, Ha.
+      destruct HR as [Hn1 Hrep1].
+      destruct (ploop_anc (y :: q') dp l' c' r' n1 sg1 (S (length (pm_array sg1))) [n1] Hdp Hsub' Hn1 Hrep1)
+        as (sg' & nl & items & E & Hrep' & Harr' & HF).
+      { pose proof (find_length_size _ _ _ Hdp). pose proof (fuel_enough s (tr s) sg1 (subt_here _) Hrep1). lia. }
+      rewrite E. exists ([n1] ++ items), sg'. split; [reflexivity|]. split; [exact Hrep'|].
+      split; [rewrite Harr'; exact Ha|].
+      rewrite (ancestors_snoc (y :: q') x (tr s) [] d dp ltac:(discriminate) Hf Hdp).
+      constructor; [|exact HF]. exists l', c', r'. split; assumption.
+  Qed.
+
+  Hypothesis Hroot : root_first s.
+
+  (* lru_node with everything the requests need: the subtree found is a subtree of the trie, the bytes are untouched *)
+  Lemma lru_node_full : forall sg p, trep (files_of s) sg -> wf_lru p ->
+    exists sg', trep (files_of s) sg' /\ pm_array sg' = pm_array sg /\
+      match find_sub (lru_iter p) (tr s) with
+      | Some t' => exists d l c r n', t' = Nd d l c r /\ py_trie_lru_node sg p = Some (sg', Some n') /\
+                     node_at t' n' /\ subt t' (tr s) /\ find (lru_iter p) (tr s) = Some d
+      | None => py_trie_lru_node sg p = Some (sg', None)
+      end.
+  Proof.
+    intros sg p Hrep Hwf.
+    destruct (py_trie_lru_node_spec s Hinv sg p Hroot Hrep Hwf) as (sg' & Hrep' & H).
+    exists sg'. split; [exact Hrep'|].
+    destruct (find_sub (lru_iter p) (tr s)) as [t'|] eqn:Efs.
+    - destruct H as (n' & E & Hn'). split; [apply (py_trie_lru_node_arr _ _ _ _ E)|].
+      destruct t' as [|d l c r]; [destruct Hn'|]. exists d, l, c, r, n'.
+      split; [reflexivity|]. split; [exact E|]. split; [exact Hn'|].
+      split; [apply (find_sub_subt _ _ _ Efs)|]. unfold find. rewrite Efs. reflexivity.
+    - split; [apply (py_trie_lru_node_arr _ _ _ _ H)|exact H].
+  Qed.
+
+  (* ---- get_webentity_parent_webentities ---- *)
+  Lemma parents_fold : forall w ps sg acc, trep (files_of s) sg -> Forall wf_lru ps ->
+    match parents_of w ps (tr s) with
+    | ROk l => exists sg', fold_left (Fp w) ps (Some (sg, map Some acc)) = Some (sg', map Some (dd acc l)) /\
+                 trep (files_of s) sg' /\ pm_array sg' = pm_array sg
+    | _ => fold_left (Fp w) ps (Some (sg, map Some acc)) = None
+    end.
+  Proof.
+    intros w ps. induction ps as [|p ps IH]; intros sg acc Hrep Hwf.
+    - cbn [parents_of fold_left]. exists sg. split; [reflexivity|]. split; [exact Hrep|reflexivity].
+    - inversion Hwf as [|? ? Hp Hps]; subst.
+      cbn [parents_of fold_left].
+      destruct (lru_node_full sg p Hrep Hp) as (sg1 & Hrep1 & Harr1 & H).
+      destruct (find_sub (lru_iter p) (tr s)) as [t'|].
+      + destruct H as (d & l & c & r & n' & -> & E & Hn' & Hsub & Hf).
+        destruct (py_trie_node_parents_iter_spec (lru_iter p) d l c r n' sg1 Hf Hsub Hn' Hrep1)
+          as (items & sg2 & E2 & Hrep2 & Harr2 & HF).
+        assert (EF : Fp w (Some (sg, map Some acc)) p =
+                     Some (sg2, map Some (dd acc (filter (keepw w) (map we (ancestors (lru_iter p) [] (tr s))))))).
+        { cbn [Fp]. rewrite E, E2. f_equal. f_equal.
+          apply (fold_addw w anc_rep); [|exact HF].
+          intros n0 d0 (l0 & c0 & r0 & _ & Hn0). exists l0, c0, r0. exact Hn0. }
+        rewrite EF.
+        specialize (IH sg2 (dd acc (filter (keepw w) (map we (ancestors (lru_iter p) [] (tr s))))) Hrep2 Hps).
+        destruct (parents_of w ps (tr s)) as [| |rl].
+        * exact IH.
+        * exact IH.
+        * destruct IH as (sg' & E' & Hrep' & Harr'). exists sg'. rewrite E'.
+          split; [rewrite dd_app; reflexivity|]. split; [exact Hrep'|]. congruence.
+      + assert (EF : Fp w (Some (sg, map Some acc)) p = None) by (cbn [Fp]; rewrite H; reflexivity).
+        rewrite EF. apply fold_Fp_none.
+  Qed.
+
+  Theorem parents_on_state : forall sg w ps, trep (files_of s) sg -> Forall wf_lru ps ->
+    match parent_webentities w ps s with
+    | ROk l => exists sg', py_traph_get_webentity_parent_webentities sg w ps = Some (sg', map Some l) /\
+                 trep (files_of s) sg' /\ pm_array sg' = pm_array sg
+    | _ => py_traph_get_webentity_parent_webentities sg w ps = None
+    end.
+  Proof.
+    intros sg w ps Hrep Hwf. rewrite parents_req_eq. unfold parent_webentities.
+    pose proof (parents_fold w ps sg [] Hrep Hwf) as H. cbn [map] in H.
+    destruct (parents_of w ps (tr s)) as [| |l].
+    - rewrite H. reflexivity.
+    - rewrite H. reflexivity.
+    - destruct H as (sg' & E & Hrep' & Harr'). exists sg'. rewrite E.
+      split; [reflexivity|]. split; assumption.
+  Qed.
+
+  (* ---- get_webentity_child_webentities ---- *)
+  Definition cf (w : N) (p : bytes) (sub : tst) : list N :=
+    filter (fun x => negb (x =? 0) && negb (x =? w)) (map (fun y => we (snd y)) (dfs_at true (lru_dirname p) sub)).
+
+  Lemma children_fold : forall w ps sg acc, trep (files_of s) sg -> Forall wf_lru ps ->
+    match over_prefixes (cf w) ps (tr s) with
+    | ROk l => exists sg', fold_left (Fc w) ps (Some (sg, map Some acc)) = Some (sg', map Some (dd acc l)) /\
+                 trep (files_of s) sg' /\ pm_array sg' = pm_array sg
+    | _ => fold_left (Fc w) ps (Some (sg, map Some acc)) = None
+    end.
+  Proof.
+    intros w ps. induction ps as [|p ps IH]; intros sg acc Hrep Hwf.
+    - cbn [over_prefixes fold_left]. exists sg. split; [reflexivity|]. split; [exact Hrep|reflexivity].
+    - inversion Hwf as [|? ? Hp Hps]; subst.
+      cbn [over_prefixes fold_left].
+      destruct (lru_node_full sg p Hrep Hp) as (sg1 & Hrep1 & Harr1 & H).
+      destruct (find_sub (lru_iter p) (tr s)) as [t'|].
+      + destruct H as (d & l & c & r & n' & -> & E & Hn' & Hsub & Hf).
+        destruct (dfs_at_spec s Hinv sg1 true (Nd d l c r) n' p Hrep1 Hsub Hn')
+          as (items & sg2 & E2 & Hrep2 & Harr2 & HF).
+        assert (EF : Fc w (Some (sg, map Some acc)) p = Some (sg2, map Some (dd acc (cf w p (Nd d l c r))))).
+        { cbn [Fc]. rewrite E, E2. f_equal. f_equal.
+          rewrite (fold_left_ext _ _ _ (fun st it => addw w st (fst it))) by (intros a [n0 x0]; reflexivity).
+          rewrite <- (fold_left_map _ _ _ (addw w) fst).
+          unfold cf. rewrite <- (map_map snd we).
+          apply (fold_addw w anc_rep).
+          - intros n0 d0 (l0 & c0 & r0 & _ & Hn0). exists l0, c0, r0. exact Hn0.
+          - apply (Forall2_map2 _ _ _ _ (item_rep s)); [|exact HF].
+            intros it m (_ & l0 & c0 & r0 & Hs0 & Hn0). exists l0, c0, r0. split; assumption. }
+        rewrite EF.
+        specialize (IH sg2 (dd acc (cf w p (Nd d l c r))) Hrep2 Hps).
+        destruct (over_prefixes (cf w) ps (tr s)) as [| |rl].
+        * exact IH.
+        * exact IH.
+        * destruct IH as (sg' & E' & Hrep' & Harr'). exists sg'. rewrite E'.
+          split; [rewrite dd_app; reflexivity|]. split; [exact Hrep'|]. congruence.
+      + assert (EF : Fc w (Some (sg, map Some acc)) p = None) by (cbn [Fc]; rewrite H; reflexivity).
+        rewrite EF. apply fold_Fc_none.
+  Qed.
+
+  Theorem children_on_state : forall sg w ps, trep (files_of s) sg -> Forall wf_lru ps ->
+    match child_webentities w ps s with
+    | ROk l => exists sg', py_traph_get_webentity_child_webentities sg w ps = Some (sg', map Some l) /\
+                 trep (files_of s) sg' /\ pm_array sg' = pm_array sg
+    | _ => py_traph_get_webentity_child_webentities sg w ps = None
+    end.
+  Proof.
+    intros sg w ps Hrep Hwf. rewrite children_req_eq. unfold child_webentities.
+    pose proof (children_fold w ps sg [] Hrep Hwf) as H. cbn [map] in H. unfold cf in H.
+    destruct (over_prefixes _ ps (tr s)) as [| |l].
+    - rewrite H. reflexivity.
+    - rewrite H. reflexivity.
+    - destruct H as (sg' & E & Hrep' & Harr'). exists sg'. rewrite E.
+      split; [reflexivity|]. split; assumption.
+  Qed.
+End OnState.
+
+  (* Traph.get_webentity_child_webentities(weid, prefixes): None stands for TraphException, RRefused on the model's side *)
+  Theorem py_traph_children_spec : forall s, Inv18 s -> root_first s -> forall sg w ps,
+    trep (files_of s) sg -> Forall wf_lru ps ->
+    match child_webentities w ps s with
+    | ROk l => exists sg', py_traph_get_webentity_child_webentities sg w ps = Some (sg', map Some l) /\
+                 trep (files_of s) sg' /\ pm_array sg' = pm_array sg
+    | _ => py_traph_get_webentity_child_webentities sg w ps = None
+    end.
+  Proof. intros s Hinv Hroot sg w ps. apply (children_on_state s Hinv Hroot). Qed.
+End Hier.
+
+(* Traph.get_webentity_parent_webentities(weid, prefixes) *)
+Theorem py_traph_parents_spec : forall s, Inv18 s -> root_first s -> forall sg w ps,
+  trep (files_of s) sg -> Forall wf_lru ps ->
+  match parent_webentities w ps s with
+  | ROk l => exists sg', py_traph_get_webentity_parent_webentities sg w ps = Some (sg', map Some l) /\
+               trep (files_of s) sg' /\ pm_array sg' = pm_array sg
+  | _ => py_traph_get_webentity_parent_webentities sg w ps = None
+  end.
+Proof. intros s Hinv Hroot sg w ps. apply (parents_on_state s Hinv Hroot). Qed.
+
+(* the children request with the translated dfs_iter theorem of GenTrieDDfs.v plugged in: no hypothesis left *)
+From Traph Require GenTrieDDfs.
+Theorem py_traph_children_full : forall s, Inv18 s -> root_first s -> forall sg w ps,
+  trep (files_of s) sg -> Forall wf_lru ps ->
+  match child_webentities w ps s with
+  | ROk l => exists sg', py_traph_get_webentity_child_webentities sg w ps = Some (sg', map Some l) /\
+               trep (files_of s) sg' /\ pm_array sg' = pm_array sg
+  | _ => py_traph_get_webentity_child_webentities sg w ps = None
+  end.
+Proof. exact (py_traph_children_spec GenTrieDDfs.py_trie_dfs_iter_at_spec). Qed.
+
+Print Assumptions py_trie_node_parents_iter_spec.
+Print Assumptions py_traph_parents_spec.
+Print Assumptions py_traph_children_spec.
+Print Assumptions py_traph_children_full.
+
+(* ====================================================================================== *)
+(* 6. non-vacuity: the translated requests run on the bytes of the trie file of a concrete state (PropsEx.exs) *)
+(* ====================================================================================== *)
+Definition ex_reply (r : option (py_pm * list (option N))) : res (list N) :=
+  match r with
+  | None => RRefused
+  | Some (_, l) => ROk (map (fun o => match o with Some w => w | None => 0 end) l)
+  end.
+Definition ex_s : bytes := firstn 7 PropsEx.ex_px.                               (* s:http| *)
+Definition ex_absent : bytes := PropsEx.ex_px ++ [112; 58; 122; 124].             (* ...|p:x|p:z| *)
+
+(* webentity 3 (prefix ...|h:a|p:x|) lies under webentity 1 (prefix ...|h:a|) *)
+Example ex_parents :
+  option_map snd (py_traph_get_webentity_parent_webentities ex_sg 3 [PropsEx.ex_px]) = Some [Some 1] /\
+  parent_webentities 3 [PropsEx.ex_px] PropsEx.exs = ROk [1].
+Proof. split; vm_compute; reflexivity. Qed.
+(* two prefixes with the same ancestors: the id is reported once; the webentity asked about is left out *)
+Example ex_parents_two :
+  ex_reply (py_traph_get_webentity_parent_webentities ex_sg 3 [PropsEx.ex_pxy; PropsEx.ex_px])
+  = parent_webentities 3 [PropsEx.ex_pxy; PropsEx.ex_px] PropsEx.exs /\
+  parent_webentities 3 [PropsEx.ex_pxy; PropsEx.ex_px] PropsEx.exs = ROk [1] /\
+  parent_webentities 7 [PropsEx.ex_pxy; PropsEx.ex_px] PropsEx.exs = ROk [3; 1].
+Proof. repeat split; vm_compute; reflexivity. Qed.
+Example ex_parents_two_other :
+  option_map snd (py_traph_get_webentity_parent_webentities ex_sg 7 [PropsEx.ex_pxy; PropsEx.ex_px]) = Some [Some 3; Some 1].
+Proof. vm_compute. reflexivity. Qed.
+(* below s:http| : webentity 3 is met before webentity 2, webentity 1 itself is left out *)
+Example ex_children :
+  option_map snd (py_traph_get_webentity_child_webentities ex_sg 1 [ex_s]) = Some [Some 3; Some 2] /\
+  child_webentities 1 [ex_s] PropsEx.exs = ROk [3; 2].
+Proof. split; vm_compute; reflexivity. Qed.
+Example ex_children_two :
+  ex_reply (py_traph_get_webentity_child_webentities ex_sg 2 [IdFacts.ex_pa; ex_s])
+  = child_webentities 2 [IdFacts.ex_pa; ex_s] PropsEx.exs /\
+  child_webentities 2 [IdFacts.ex_pa; ex_s] PropsEx.exs = ROk [1; 3].
+Proof. split; vm_compute; reflexivity. Qed.
+(* a prefix that is not in the trie: TraphException / RRefused, wherever it stands in the list *)
+Example ex_parents_absent :
+  py_traph_get_webentity_parent_webentities ex_sg 3 [PropsEx.ex_px; ex_absent] = None /\
+  parent_webentities 3 [PropsEx.ex_px; ex_absent] PropsEx.exs = RRefused /\
+  py_traph_get_webentity_parent_webentities ex_sg 3 [ex_absent; PropsEx.ex_px] = None /\
+  parent_webentities 3 [ex_absent; PropsEx.ex_px] PropsEx.exs = RRefused.
+Proof. repeat split; vm_compute; reflexivity. Qed.
+Example ex_children_absent :
+  py_traph_get_webentity_child_webentities ex_sg 1 [ex_s; ex_absent] = None /\
+  child_webentities 1 [ex_s; ex_absent] PropsEx.exs = RRefused.
+Proof. split; vm_compute; reflexivity. Qed.
+
+(* the hypotheses of the theorems are met by that state and its file, and the theorems then give the replies above *)
+From Traph Require StoreFacts2.
+Definition blk_encb (b : tblock) : bool :=
+  Nat.leb (length (b_stem b)) 74 && (b_flags b <? 256) && (b_we b <? 2 ^ 32) && (b_left b <? 2 ^ 64) &&
+  (b_right b <? 2 ^ 64) && (b_child b <? 2 ^ 64) && (b_parent b <? 2 ^ 64) && (b_out b <? 2 ^ 64) && (b_in b <? 2 ^ 64).
+Lemma blk_encb_ok : forall b, blk_encb b = true -> blk_encodable b.
+Proof.
+  intros b H. unfold blk_encb in H. repeat (apply andb_true_iff in H; destruct H as [H ?]).
+  repeat split; try (apply N.ltb_lt; assumption). apply Nat.leb_le. exact H.
+Qed.
+Lemma ex_trep : trep (files_of PropsEx.exs) ex_sg.
+Proof.
+  apply (trep_of_file PropsEx.exs 0). apply Forall_forall. intros b Hb. apply blk_encb_ok. revert b Hb.
+  apply forallb_forall. vm_compute. reflexivity.
+Qed.
+Lemma ex_inv : Inv18 PropsEx.exs.
+Proof. apply StoreFacts2.run_Inv18. exact PropsEx.exh_wf. Qed.
+Lemma ex_root : root_first PropsEx.exs.
+Proof. apply StoreFacts2.run_root_first. Qed.
+
+Example ex_parents_by_theorem : exists sg',
+  py_traph_get_webentity_parent_webentities ex_sg 3 [PropsEx.ex_px] = Some (sg', [Some 1]) /\
+  trep (files_of PropsEx.exs) sg' /\ pm_array sg' = pm_array ex_sg.
+Proof.
+  assert (Hwf : Forall wf_lru [PropsEx.ex_px]) by (constructor; [PropsEx.wf_lru_tac|constructor]).
+  pose proof (py_traph_parents_spec PropsEx.exs ex_inv ex_root ex_sg 3 [PropsEx.ex_px] ex_trep Hwf) as H.
+  replace (parent_webentities 3 [PropsEx.ex_px] PropsEx.exs) with (ROk [1]) in H by (vm_compute; reflexivity).
+  exact H.
+Qed.
+Example ex_children_by_theorem : exists sg',
+  py_traph_get_webentity_child_webentities ex_sg 1 [ex_s] = Some (sg', [Some 3; Some 2]) /\
+  trep (files_of PropsEx.exs) sg' /\ pm_array sg' = pm_array ex_sg.
+Proof.
+  assert (Hwf : Forall wf_lru [ex_s]) by (constructor; [PropsEx.wf_lru_tac|constructor]).
+  pose proof (py_traph_children_full PropsEx.exs ex_inv ex_root ex_sg 1 [ex_s] ex_trep Hwf) as H.
+  replace (child_webentities 1 [ex_s] PropsEx.exs) with (ROk [3; 2]) in H by (vm_compute; reflexivity).
+  exact H.
 Qed.
